@@ -22,11 +22,13 @@
 
 #include "sim.h"
 #include "wrap.h"
+#include "subrun.h"
 
 extern "C" void __sanitizer_set_report_path(const char*) __attribute__((weak));
 extern "C" __attribute__((used)) const char* __asan_default_options() {
   return "exitcode=77:detect_leaks=0:abort_on_error=0:handle_abort=0:"
-         "allocator_may_return_null=1:detect_stack_use_after_return=0";
+         "allocator_may_return_null=1:detect_stack_use_after_return=0:"
+         "quarantine_size_mb=4:malloc_context_size=6";
 }
 extern "C" __attribute__((used)) const char* __ubsan_default_options() {
   return "exitcode=77:print_stacktrace=1:halt_on_error=1";
@@ -90,6 +92,8 @@ static void emitResult(const std::string& status) {
   j["accesses"] = (Json::UInt64)R.access_total;
   if (!R.sample.isNull())
     j["sample"] = R.sample;
+  if (!R.replayPlan.isNull())
+    j["replay_plans"] = R.replayPlan;
   writeAll(g_resultFd, jstr(j) + "\n");
 }
 
@@ -166,49 +170,6 @@ static std::string slurpSan(const std::string& prop, uint64_t seed, pid_t pid) {
   std::string s = readWhole(base);
   ::unlink(base.c_str());
   return s;
-}
-
-// summarise a sanitizer report into a stable clause
-static std::string sanClause(const std::string& rep) {
-  std::string kind = "sanitizer";
-  auto p = rep.find("ERROR: AddressSanitizer: ");
-  if (p != std::string::npos) {
-    auto e = rep.find_first_of(" \n", p + 25);
-    kind = "asan:" + rep.substr(p + 25, e - (p + 25));
-  } else if ((p = rep.find("runtime error: ")) != std::string::npos) {
-    auto e = rep.find('\n', p);
-    std::string msg = rep.substr(p + 15, e - (p + 15));
-    // strip numbers so the class is stable
-    std::string m2;
-    for (char c : msg)
-      if (!isdigit((unsigned char)c))
-        m2 += c;
-    kind = "ubsan:" + m2.substr(0, 60);
-  } else if (rep.find("ThreadSanitizer: data race") != std::string::npos) {
-    kind = "tsan:data-race";
-  } else if ((p = rep.find("ThreadSanitizer: ")) != std::string::npos) {
-    auto e = rep.find_first_of("(\n", p + 17);
-    kind = "tsan:" + rep.substr(p + 17, e - (p + 17));
-  }
-  // first frame inside the repository
-  std::string fn;
-  size_t pos = 0;
-  while ((pos = rep.find(" in ", pos)) != std::string::npos) {
-    auto eol = rep.find('\n', pos);
-    std::string line = rep.substr(pos + 4, eol - (pos + 4));
-    if (line.find("/src/oomd/") != std::string::npos) {
-      auto sp = line.find(" /");
-      fn = line.substr(0, sp);
-      auto par = fn.find('(');
-      if (par != std::string::npos)
-        fn = fn.substr(0, par);
-      break;
-    }
-    pos = eol == std::string::npos ? rep.size() : eol;
-  }
-  while (!kind.empty() && kind.back() == ' ')
-    kind.pop_back();
-  return "crash." + kind + (fn.empty() ? "" : "@" + fn);
 }
 
 // fork one run; prints exactly one result line to stdout
@@ -347,8 +308,19 @@ int main(int argc, char** argv) {
       fprintf(stderr, "unknown property %s\n", prop.c_str());
       return 2;
     }
-    for (uint64_t i = start; i < start + count; i++)
-      runOne(prop, seedFor(base, prop, i), nullptr);
+    for (uint64_t i = start; i < start + count; i++) {
+      const Prop* pp = findProp(prop);
+      if (pp->genIndexed) {
+        Json::Value plan = pp->genIndexed(
+            [&](uint64_t k) { return seedFor(base, prop, k); }, i);
+        plan["prop"] = prop;
+        if (!plan.isMember("seed"))
+          plan["seed"] = (Json::UInt64)seedFor(base, prop, i);
+        runOne(prop, plan["seed"].asUInt64(), &plan);
+      } else {
+        runOne(prop, seedFor(base, prop, i), nullptr);
+      }
+    }
     return 0;
   }
   fprintf(stderr,
